@@ -367,6 +367,14 @@ func c08(c *core.Ctx) {
 	// with a non-OK status that was put on the wire first (C14/R5)
 	c.Borrow("C14", map[string]string{"R3": "R4", "R5": "R5"}, c14)
 
+	// ---------------------------------------------------------------- R6, R7 (shared)
+	// the second-request probe lives in the streaming handler's receive path only: a method that takes a single
+	// request is reached with the stream framing only through that handler (C11/R3: each kind of handler accepts its
+	// own content types); and the client's second-response probe sees every response only if every send that
+	// reports success has put exactly one frame on the wire (C01/R2)
+	c.Borrow("C11", map[string]string{"R3": "R6", "R1": "R8"}, c11)
+	c.Borrow("C01", map[string]string{"R2": "R7"}, c01)
+
 }
 
 // singlePolarity: for bool value v in fn, returns (isFlagExpr, singleWhenTrue).
